@@ -182,6 +182,9 @@ func (b *CredentialBuilder) ConstructCredential(msg *IssueSignatureMessage, attr
 		if ms[i] != nil {
 			return nil, errors.New("attribute at random blind index should be nil before issuance")
 		}
+		if msg.MIssuer[i] == nil {
+			return nil, errors.New("issuer's share of random blind attribute is missing")
+		}
 		ms[i] = new(big.Int).Add(msg.MIssuer[i], miUser) // mi = mi' + mi", for i \in randomblind
 	}
 
